@@ -149,6 +149,30 @@ pub fn replay_inflight(a: &Args) -> i32 {
         let mut futs: HashMap<u64, Fut> = HashMap::new();
         let mut results: HashMap<u64, &'static str> = HashMap::new();
         let mut fail = None;
+        // a layer that has been in service for a while: thousands of other peers have come and gone
+        // (one finished request each) before the peers of this behaviour show up; what the layer
+        // remembers of them must not change anything for anybody else
+        if bi % 25 == 3 {
+            let n = a.u64("preload", 4_200);
+            for i in 0..n {
+                let rid = 1_000_000 + i;
+                let mut id = [0xa5u8; 32];
+                id[..8].copy_from_slice(&(i.wrapping_mul(0x9e37_79b9_7f4a_7c15)).to_le_bytes());
+                id[24..].copy_from_slice(&i.to_be_bytes());
+                let req = Request::new(Bytes::new())
+                    .with_header("rid", rid.to_string())
+                    .with_header("peer", (10_000 + i).to_string())
+                    .with_extension(PeerId(id));
+                let mut f: Fut = Box::pin(services[(i % 3) as usize].call(req));
+                let _ = poll_once(&mut f);
+                let tx = gauge.inner.lock().unwrap().finishers.remove(&rid);
+                if let Some(tx) = tx {
+                    let _ = tx.send(true);
+                    let _ = poll_once(&mut f);
+                }
+                drop(f);
+            }
+        }
         for (si, step) in beh.as_array().unwrap().iter().enumerate() {
             steps += 1;
             let act = step["act"].as_str().unwrap();
